@@ -87,16 +87,21 @@ def chol_logdet(theta):
     return 2.0 * float(np.sum(np.log(np.diag(L)))), L
 
 
-def gaussian_logpdf_precision(x, mu, theta):
-    """log N(x; mu, theta^{-1}); returns (value, scale) where scale bounds the
-    magnitudes that were added (for relative tolerances)."""
+def gaussian_logpdf_precision(x, mu, theta, cond=1.0):
+    """log N(x; mu, theta^{-1}); returns (value, scale): 1e-10*scale is the tolerance
+    a correct binary64 evaluation is held to.  scale = the magnitudes that were added,
+    plus (when the caller passes cond(theta)) the conditioning term: ANY binary64
+    evaluation of log det and of the quadratic form carries ~n*cond*eps relative error."""
     nw = theta.shape[0]
     logdet, L = chol_logdet(theta)
     d = np.asarray(x, dtype=np.float64) - np.asarray(mu, dtype=np.float64)
     y = L.T @ d
     quad = float(y @ y)
     val = 0.5 * (logdet - quad - nw * math.log(2 * math.pi))
-    return val, abs(logdet) + quad + nw * math.log(2 * math.pi)
+    scale = abs(logdet) + quad + nw * math.log(2 * math.pi)
+    if cond > 1e3:
+        scale += 32 * nw * cond * 2.3e-16 * (1.0 + quad) / 1e-10
+    return val, scale
 
 
 # ------------------------------------------------------------------ statistics
@@ -127,6 +132,9 @@ def bic(labels, thetas, covs, threshold=2e-5):
         tr = float(np.sum(th * S.T))
         mod += ld - tr
         scale += abs(ld) + abs(tr)
+        cond = float(np.linalg.cond(th))
+        if cond > 1e3:      # any binary64 log-determinant / trace carries ~n*cond*eps relative error
+            scale += 32 * th.shape[0] * cond * 2.3e-16 * (1.0 + abs(ld) + abs(tr)) / 1e-10
         params.append(int(np.sum(np.abs(th) > threshold)))
     P = 0
     last = None
